@@ -12,6 +12,7 @@ SEMANTIC = [
     "index out of bounds", "recommendation not met", "unreachable", "could not prove termination",
     "assertion failed", "cannot show invariant", "failed this postcondition", "failed precondition",
     "slice index out of range", "not all errors may have been reported", "requires not satisfied",
+    "precondition not met", "index in bounds",
 ]
 RESOURCE = ["rlimit", "resource limit", "timed out", "timeout"]
 
@@ -70,11 +71,18 @@ def run_verus(path, rlimit=None, extra=None, timeout=900):
                   "label": s.get("label")} for s in d.get("spans", [])]
         res["diagnostics"].append({"message": msg, "spans": spans, "rendered": d.get("rendered", "")})
     # rustc-level errors: any error diagnostic that is not a verification failure, or no results block
+    # Verus prints per-function verification results only when the emitted file passed rustc's and Verus' own front end
+    # (a type error / unsupported construct ends the run before any query is sent).  An error diagnostic of a run that has
+    # such results is therefore a failed proof obligation even when its wording is not in the SEMANTIC list (e.g. "precondition
+    # not met: index in bounds for this access"); only resource-limit messages are kept apart.
+    has_results = bool(res["functions"]) and not res["vir_error"] and not res["compile_error"]
     for d in res["diagnostics"]:
         m = d["message"].lower()
         if m.startswith("aborting due to"):
             continue
         d["class"] = classify(m)
+        if d["class"] == "other" and has_results and not re.match(r"error\[e\d+\]", m):
+            d["class"] = "semantic"
         if d["class"] == "other":
             res["compile_error"] = True
     return res
